@@ -30,7 +30,11 @@ Inductive field :=
 
 (* sb_indent: blanks in front of every line of the block (the manual prints its
    examples indented; getLinkItem strips each line) *)
-Record sblock := mkSBlock { sb_comments : list str; sb_fields : list field; sb_indent : str }.
+(* sb_before: lines that stand between the blank line ending the previous block (or the start of the
+   file) and this block: further blank lines (None) and comment lines (Some text) in any arrangement —
+   blocks may be separated by more than one blank line and by whole comment paragraphs *)
+Record sblock := mkSBlock { sb_comments : list str; sb_fields : list field; sb_indent : str;
+                            sb_before : list (option str) }.
 Definition linkfile := list sblock.
 
 Definition key_of (f : field) : N :=
@@ -67,15 +71,25 @@ Definition block_lines (b : sblock) : list str :=
 
 Definition indented_lines (b : sblock) : list str := map (app (sb_indent b)) (block_lines b).
 
-(* blocks are separated by one blank line *)
+Definition noise_lines (ns : list (option str)) : list str :=
+  map (fun o => match o with None => [] | Some c => 35 :: c end) ns.
+Definition full_lines (b : sblock) : list str := noise_lines (sb_before b) ++ indented_lines b.
+
+(* a blank line ends a block; what follows it up to the next block is that block's sb_before *)
 Fixpoint lf_lines (lf : linkfile) : list str :=
   match lf with
   | [] => []
-  | [b] => indented_lines b
-  | b :: r => indented_lines b ++ [] :: lf_lines r
+  | [b] => full_lines b
+  | b :: r => full_lines b ++ [] :: lf_lines r
   end.
 
 Definition render_linkfile (lf : linkfile) : str := concat (map (fun l => l ++ [10]) (lf_lines lf)).
+
+(* the same file with something after the last block: a blank line, then more blank / comment lines *)
+Definition trailer (tr : list (option str)) : list str :=
+  match tr with [] => [] | _ => [] :: noise_lines tr end.
+Definition render_linkfile_trailing (lf : linkfile) (tr : list (option str)) : str :=
+  concat (map (fun l => l ++ [10]) (lf_lines lf ++ trailer tr)).
 
 (* ---------- well-formedness (boolean) ---------- *)
 Definition no_eol (s : str) : bool := negb (mem_N 10 s) && negb (mem_N 13 s).
@@ -119,7 +133,11 @@ Fixpoint distinct (l : list N) : bool :=
 (* indentation: blanks other than line ends *)
 Definition wf_indent (s : str) : bool := forallb is_space s && no_eol s.
 
+Definition wf_noise (ns : list (option str)) : bool :=
+  forallb (fun o => match o with None => true | Some c => no_eol c && no_trailing_space c end) ns.
+
 Definition wf_block (b : sblock) : bool :=
+  wf_noise (sb_before b) &&
   wf_indent (sb_indent b) &&
   forallb (fun c => no_eol c && no_trailing_space c) (sb_comments b) &&
   forallb wf_field (sb_fields b) &&
